@@ -46,7 +46,7 @@ var c18Points = []string{"idle", "inflight", "pending-dial", "unused"}
 
 // runChild runs `vharness child ...` under a watchdog; returns output and whether it ended normally.
 func c18RunChild(c *Ctx, name string, watchdog int, args ...string) (out string, exit int, killed bool) {
-	dir := filepath.Join(c.Work, name)
+	dir := filepath.Join(c.Work, strings.NewReplacer(":", "_", " ", "_", ",", "_").Replace(name)) // the path goes into GORACE, whose separators these are
 	os.MkdirAll(dir, 0755)
 	exe, _ := os.Executable()
 	full := append([]string{"-s", "QUIT", strconv.Itoa(watchdog), exe, "child"}, args...)
@@ -119,6 +119,11 @@ func c18Judge(c *Ctx, part, cell string, out string, exit int, killed bool, cs m
 		c.Violation(part+":child-failed:"+class, fmt.Sprintf("%s %s: child exited with status %d:\n%s", part, cell, exit, cut(out)), cs)
 		return
 	}
+	if !viol && !strings.Contains(out, "\nCOUNT ") && !strings.HasPrefix(out, "COUNT ") {
+		// the child ended without reporting a single observation: nothing was checked
+		c.Inconclusive(fmt.Sprintf("%s %s: child ended without any observation: %s", part, cell, cut(out)))
+		return
+	}
 	if !viol {
 		c.Ev.Distinct(part, cell)
 	}
@@ -176,6 +181,10 @@ func runC18(c *Ctx) {
 	for ki, k := range c18ListenerKinds {
 		rcells = append(rcells, rcell{scen: "failafter:" + k, n: 2, pos: 1, fail: fails[ki%3]})
 	}
+	// start-up errors that happen before any listener is started (and before the cache exists)
+	for _, k := range c18EarlyKinds {
+		rcells = append(rcells, rcell{scen: "early:" + k, fail: k})
+	}
 	for rep := 1; rep < reps; rep++ {
 		rcells = append(rcells, rcell{scen: "full"}, rcell{scen: "fullctx"})
 		for ki, k := range c18ListenerKinds {
@@ -187,7 +196,9 @@ func runC18(c *Ctx) {
 		name := fmt.Sprintf("rt-%s-%d-%d-%s-%d", rc.scen, rc.n, rc.pos, rc.fail, i)
 		out, exit, killed := c18RunChild(c, name, 90, "c18rt", rc.scen, strconv.Itoa(rc.n), strconv.Itoa(rc.pos), rc.fail, strconv.FormatInt(c.Seed+int64(i), 10))
 		cellName := rc.scen
-		if rc.scen == "fail" {
+		if strings.HasPrefix(rc.scen, "early:") {
+			cellName = "fail-early/" + rc.fail
+		} else if rc.scen == "fail" {
 			cellName = fmt.Sprintf("fail/%s/n%d/pos%d", rc.fail, rc.n, rc.pos)
 		} else if strings.HasPrefix(rc.scen, "failafter:") {
 			cellName = fmt.Sprintf("fail/%s/after-%s", rc.fail, strings.TrimPrefix(rc.scen, "failafter:"))
@@ -470,6 +481,8 @@ func c18FreePort() int {
 	return p[0]
 }
 
+var c18EarlyKinds = []string{"metrics-addr-in-use", "upstream-unknown-scheme", "upstream-unreadable-ca", "dup-upstream-tag", "missing-domain-file", "rule-unknown-upstream", "rule-unknown-domain-set", "cache-bad-ip-marker"}
+
 var c18ListenerKinds = []string{"udp", "tcp", "gnet", "tls", "http", "fasthttp", "https", "quic"}
 
 func bindable(kind, addr string) error {
@@ -598,6 +611,13 @@ func c18RouterChild(args []string) int {
 		return sc
 	}
 	var buildFail func() bool
+	early := ""
+	if strings.HasPrefix(scen, "early:") {
+		early = strings.TrimPrefix(scen, "early:")
+		scen = "fail"
+		n, pos = 2, 2 // two healthy listeners; the failure is not one of them
+		failure = early
+	}
 	if scen == "full" {
 		for _, k := range c18ListenerKinds {
 			cfg.Servers = append(cfg.Servers, mk(k))
@@ -650,6 +670,32 @@ func c18RouterChild(args []string) int {
 		if !buildFail() {
 			return 0
 		}
+	}
+	switch early {
+	case "metrics-addr-in-use":
+		l, err := net.Listen("tcp", "127.0.0.1:0")
+		if err != nil {
+			fmt.Println("INCONCLUSIVE could not occupy an address:", err)
+			return 0
+		}
+		defer l.Close()
+		cfg.Metrics.Addr = l.Addr().String()
+	case "upstream-unknown-scheme":
+		cfg.Upstreams = append(cfg.Upstreams, router.UpstreamConfig{Tag: "odd", Addr: "gopher://127.0.0.1:70"})
+	case "upstream-unreadable-ca":
+		uc := router.UpstreamConfig{Tag: "badca", Addr: "tls://127.0.0.1:853"}
+		uc.Tls.CA = filepath.Join(dir, "no-such-ca.pem")
+		cfg.Upstreams = append(cfg.Upstreams, uc)
+	case "dup-upstream-tag":
+		cfg.Upstreams = append(cfg.Upstreams, cfg.Upstreams[0])
+	case "missing-domain-file":
+		cfg.DomainSets = append(cfg.DomainSets, router.DomainSetConfig{Tag: "ghost", Files: []string{filepath.Join(dir, "no-such-list.txt")}})
+	case "rule-unknown-upstream":
+		cfg.Rules = append(cfg.Rules, router.RuleConfig{Forward: "nobody"})
+	case "rule-unknown-domain-set":
+		cfg.Rules = append(cfg.Rules, router.RuleConfig{Domain: "no-such-set", Forward: cfg.Upstreams[0].Tag})
+	case "cache-bad-ip-marker":
+		cfg.Cache.IpMarker = filepath.Join(dir, "no-such-marker.txt")
 	}
 	type runRes struct {
 		closeFn func()
